@@ -614,6 +614,7 @@ func c12Sentinel(c *Ctx, r *Result, haveClear bool, clearVal ssa.Value) {
 		return
 	}
 	var initVals []int64
+	var resets []string
 	okInc := true
 	n := 0
 	for _, fn := range c.ModFuncs() {
@@ -624,7 +625,18 @@ func c12Sentinel(c *Ctx, r *Result, haveClear bool, clearVal ssa.Value) {
 			}
 			n++
 			if v, ok := constInt(st.Val); ok {
-				initVals = append(initVals, v)
+				// a constant is an initial value only when it is stored into a pool that is being
+				// constructed (a fresh allocation of this function); stored into a live pool it is a
+				// reset: ids handed out before are handed out again
+				fresh := false
+				if fa, isFA := st.Addr.(*ssa.FieldAddr); isFA {
+					_, fresh = fa.X.(*ssa.Alloc)
+				}
+				if fresh {
+					initVals = append(initVals, v)
+				} else {
+					resets = append(resets, c.FuncKey(fn)+" ("+c.Pos(c.InstrPos(st))+")")
+				}
 				continue
 			}
 			bo, ok := st.Val.(*ssa.BinOp)
@@ -651,6 +663,12 @@ func c12Sentinel(c *Ctx, r *Result, haveClear bool, clearVal ssa.Value) {
 		}
 	}
 	site := "pool.ThreadPool.workerIDCount#sentinel"
+	if len(resets) > 0 {
+		sort.Strings(resets)
+		r.Instance("R12d", site+"#reset", "", "finding", "the id counter is reset in "+strings.Join(resets, ", "), true)
+		r.Report(Finding{Rule: "R12d", Site: site + "#reset",
+			Msg: "the thread id counter of a live pool is set back to a constant in " + strings.Join(resets, ", ") + ": an id handed out before (NewThreadID for a direct evaluation, a worker) is handed out again — two threads then pass each other's owner test and are inside one mutex block together"})
+	}
 	if n == 0 || len(initVals) == 0 {
 		r.Undecide("R12d: no initialisation of ThreadPool.workerIDCount found")
 		return
